@@ -260,6 +260,10 @@ func (l *localFS) Keys(ctx context.Context) ([]string, error) {
 	var res []string
 	e := afero.Walk(l.fs, root, func(path string, info os.FileInfo, err error) error {
 		if err != nil {
+			if path == root && os.IsNotExist(err) {
+				// nothing was ever stored, or the store has been cleared: no key
+				return nil
+			}
 			return err
 		}
 		if path == root {
